@@ -354,6 +354,7 @@ print(json.dumps(sorted(seen)))
 # ----------------------------------------------------------------------------- main pieces
 def gen_unicode():
     cat_name(sre_c.CATEGORY_DIGIT)
+    cat_name(sre_c.CATEGORY_SPACE)
     lines = ["import ProductMD.Model.Str", "/-! GENERATED by tools/translate.py – do not edit. Code-point ranges CPython's `re` uses",
              "for its character categories on this interpreter (surrogates excluded). -/", "namespace PM.Gen", ""]
     for cat, name in _CAT_NAMES.items():
@@ -382,7 +383,7 @@ def gen_regexes(mods):
             term, why = ".bad", "unmodelled re.%s" % e["kind"]
         out.append("/-- %s  `%s`%s -/" % (e["where"], (e["pattern"] or "?").replace("-/", "- /"), (" UNSUPPORTED: " + why) if why else ""))
         out.append("def %s : Re :=\n  %s" % (e["name"], term))
-        if groups:
+        if groups or (e["pattern"] and "(?P<" in e["pattern"]):
             out.append("def %s_groups : List (String × Nat) := [%s]" % (e["name"], ", ".join('("%s", %d)' % kv for kv in sorted(groups.items(), key=lambda kv: kv[1]))))
         out.append("")
         names.append(e["name"])
